@@ -7,7 +7,10 @@ Scenario:
    jobs: [{name: str|None}], inputs: [path...], input_groups: [{ext: path}...]
    ops: [{op:'declare', job, name, members:{ext: template}} |
          {op:'command', job, segs:[['T', text] | ['R', ref]]} |
-         {op:'write_output', res: ref, dest}]
+         {op:'write_output', res: ref, dest} |
+         {op:'call', job, args:[ARG...], kwargs:[[key, ARG]...], fn:'f'|'g'}]      (job of kind 'py': PythonJob.call)
+   ARG: ['v', const] | ['r', ref] | ['l', [ARG...]] | ['t', [ARG...]] | ['d', [[key, ARG]...]]
+   jobs[i].kind == 'py' -> new_python_job; ref ['res', k, 'raw'|'str'|'repr'|'json'] = the k-th call's result / converted view
    ref: ['job', j, ident] | ['jobgroup', j, g] | ['jobgroupfile', j, g, ext] | ['input', i] | ['ingroup', k] |
         ['ingroupfile', k, ext] | ['jobobj', j] | ['batch']}
 Result: constants, tokens, per-command {flat, result | error}, expected text, resource table, per-job DSL state, the
@@ -81,6 +84,40 @@ be.track = lambda it, **kw: it
 be.copy_from_dict = _fake_copy_from_dict
 be.get_deploy_config = lambda: _DC()
 
+# PythonJob: the loader's dill is an inert stub; record what Batch._serialize_python_to_input_file pickles (the function objects and the
+# prepared (args, kwargs) of every call) and write its index into the pipe, so that the file written to the (fake) file system names it
+DILLED = []
+
+
+def _record_dump(obj, pipe, **kw):
+    DILLED.append(obj)
+    pipe.write(b'%d' % (len(DILLED) - 1))
+
+
+bmod.dill.dump = _record_dump
+
+
+class FakeFS:
+    def __init__(self):
+        self.files = {}
+
+    async def makedirs(self, path, exist_ok=False):
+        return None
+
+    async def write(self, path, data):
+        self.files[path] = bytes(data)
+
+
+def py_f(*args, **kwargs):
+    return 0
+
+
+def py_g(a, b=None, *rest, **kw):
+    return [a, b]
+
+
+PY_FUNCS = {'f': py_f, 'g': py_g}
+
 
 def make_backend():
     sb = object.__new__(be.ServiceBackend)
@@ -89,7 +126,7 @@ def make_backend():
     sb._billing_project = 'verif'
     sb.remote_tmpdir = 'gs://verif-bucket/tmp'
     sb.regions = ['us-central1']
-    sb._ServiceBackend__fs = None
+    sb._ServiceBackend__fs = FakeFS()          # only PythonJob function / argument files are written through it
     sb._requester_pays_fses = None
     sb._closed = True          # __del__/close must not touch the (absent) file systems
     return sb
@@ -132,7 +169,10 @@ def run_case(scn):
     CAPTURE.clear()
     sb = make_backend()
     b = hb.Batch(backend=sb, name='c18')
-    jobs = [b.new_job(name=j.get('name')) for j in scn['jobs']]
+    jobs = [b.new_python_job(name=j.get('name')) if j.get('kind') == 'py' else b.new_job(name=j.get('name')) for j in scn['jobs']]
+    results = []          # the PythonResult of the k-th call
+    new_views = []        # [producer job, uid] of as_str/as_repr/as_json files created while resolving the current operation
+    DILLED.clear()
     consumed = stream.k
     bmod.secret_alnum_string = Stream([])          # input roots: deterministic and distinct
     inputs = [b.read_input(p) for p in scn['inputs']]
@@ -172,6 +212,16 @@ def run_case(scn):
             return describe(ingroups[ref[1]])
         if k == 'ingroupfile':
             return describe(ingroups[ref[1]][ref[2]])
+        if k == 'res':          # the k-th PythonResult: raw, or one of its converted views
+            res = describe(results[ref[1]])
+            if ref[2] == 'raw':
+                return res
+            attr, conv = {'str': ('_str', res.as_str), 'repr': ('_repr', res.as_repr), 'json': ('_json', res.as_json)}[ref[2]]
+            fresh = getattr(res, attr) is None
+            view = describe(conv())
+            if fresh:
+                new_views.append([jobs.index(res.source()), view._uid])
+            return view
         if k == 'jobobj':
             return jobs[ref[1]]
         if k == 'batch':
@@ -200,26 +250,55 @@ def run_case(scn):
                     else:
                         r = resolve(x)
                         parts.append(f'{r}')          # exactly what an f-string does
-                        if isinstance(r, rmod.Resource):
+                        if isinstance(r, rmod.PythonResult):          # a raw PythonResult in a Bash command is rejected
+                            expected.append(None)
+                        elif isinstance(r, rmod.Resource):
                             expected.append('${BATCH_TMPDIR}' + shlex.quote(r._get_path('')))
                             refs.append(r._uid)
                         else:
                             expected.append(None)
                 flat = ''.join(parts)
                 rec = {'op': 'command', 'job': op['job'], 'flat': flat, 'user_refs': refs,
-                       'known': sorted(b._resource_map.keys()),
+                       'known': sorted(b._resource_map.keys()), 'pre_views': list(new_views),
                        'expected': None if None in expected else ''.join(expected)}
+                del new_views[:]
                 ops_out.append(rec)
                 n_before = len(j._command)
                 j.command(flat)
                 rec['result'] = j._command[-1] if len(j._command) > n_before else None
+            elif op['op'] == 'call':
+                # PythonJob.call(f, *args, **kwargs); ARG = ['v', const] | ['r', ref] | ['l', [ARG]] | ['t', [ARG]] | ['d', [[key, ARG]]]
+                j = jobs[op['job']]
+
+                def build(a):
+                    if a[0] == 'v':
+                        return a[1], ['v']
+                    if a[0] == 'r':
+                        r = resolve(a[1])
+                        return r, ['r', r._uid]
+                    if a[0] in ('l', 't'):
+                        xs = [build(x) for x in a[1]]
+                        return (list if a[0] == 'l' else tuple)(x for x, _ in xs), [a[0], [t for _, t in xs]]
+                    xs = [(key, build(x)) for key, x in a[1]]
+                    return {key: x for key, (x, _) in xs}, ['d', [[key, t] for key, (_, t) in xs]]
+                args = [build(a) for a in op['args']]
+                kwargs = [(key, build(a)) for key, a in op['kwargs']]
+                rec = {'op': 'call', 'job': op['job'], 'k': len(results), 'args': [t for _, t in args],
+                       'kwargs': [[key, t] for key, (_, t) in kwargs], 'pre_views': list(new_views)}
+                del new_views[:]
+                ops_out.append(rec)
+                res = j.call(PY_FUNCS[op.get('fn', 'f')], *[x for x, _ in args], **{key: x for key, (x, _) in kwargs})
+                results.append(res)
+                describe(res)
+                rec['result'] = res._uid
             elif op['op'] == 'write_output':
                 r = resolve(op['res'])
                 b.write_output(r, op['dest'])
-                ops_out.append({'op': 'write_output', 'res': r._uid, 'dest': op['dest']})
+                ops_out.append({'op': 'write_output', 'res': r._uid, 'dest': op['dest'], 'pre_views': list(new_views)})
+                del new_views[:]
         except BatchException as e:
             error = {'op_index': oi, 'class': err_class(e)}
-            if ops_out and ops_out[-1].get('op') == 'command' and 'result' not in ops_out[-1]:
+            if ops_out and ops_out[-1].get('op') in ('command', 'call') and 'result' not in ops_out[-1]:
                 ops_out[-1]['error'] = error['class']
             break
         except Exception as e:  # noqa
@@ -252,6 +331,22 @@ def run_case(scn):
                             'command': kw['command'][-1] if kw.get('command') else None,
                             'env': kw.get('env')})
             out['submitted'] = {'jobs': sub, 'uploads': CAPTURE.get('uploads', []), 'order': [j._job_id for j in jobs]}
+            # PythonJob: per call, the prepared arguments that were pickled for it, the wrapper that runs it, the converted views
+            files = sb._ServiceBackend__fs.files
+            pycalls = []
+            for ji, j in enumerate(jobs):
+                for i, (res, _fid, _a, _k) in enumerate(j._function_calls if isinstance(j, jmod.PythonJob) else []):
+                    hits = [p for p in files if p.endswith(f'/{j._dirname}/args/code{i}.p')]
+                    prepared = DILLED[int(files[hits[0]])] if len(hits) == 1 else None
+                    irf = [r for r in b._input_resources if hits and getattr(r, '_input_path', None) == hits[0]]
+                    pycalls.append({'job': ji, 'index': i, 'result': res._uid, 'args_files': hits,
+                                    'args_local': irf[0]._get_path('') if len(irf) == 1 else None,
+                                    'prepared': json.loads(json.dumps(prepared, default=repr)) if prepared is not None else None,
+                                    'views': {'json': res._json._uid if res._json is not None else None,
+                                              'str': res._str._uid if res._str is not None else None,
+                                              'repr': res._repr._uid if res._repr is not None else None},
+                                    'wrapper': j._wrapper_code[i] if i < len(j._wrapper_code) else None})
+            out['submitted']['pycalls'] = pycalls
         except Exception as e:  # noqa
             out['submitted'] = {'error': type(e).__name__ + ':' + str(e)[:200]}
     return out
